@@ -8,6 +8,8 @@ TB_SSZ = [
     "Zrnt.Schema.Facts.checkType (the decision procedure the table theorems are about) incl. the polynomial normal form used to compare limit expressions for all configurations",
     "ztyp (codec, views, tree), encoding/json, yaml.v3: dependencies, exercised through zrnt by the correspondence, not verified",
     "harness framing convention: an input counts as accepted by Go only if Deserialize returns nil and read every byte of its scope",
+    "Zrnt.SSZ.Json.toJson: the canonical JSON text of a value of a schema type (decimal strings, 0x-hex strings, arrays, objects keyed by the schema's field names; an empty list is []), compared per accepted line with json.Marshal's text (texts over 160 bytes by length + FNV-1a digest)",
+    "the run-length notation of the op lines' hex (`hh*N.`), expanded by both executors before anything else",
 ]
 
 def facts_coverage(ctx):
@@ -71,7 +73,9 @@ PROPS = {"C04": dict(
               "Zrnt.Proofs.C04.schema_types_legal", "Zrnt.Proofs.C04.schema_round_trip", "Zrnt.Proofs.C04.limits_agree_for_all_configs",
               "Zrnt.Proofs.C04.ssz_methods_agree", "Zrnt.Proofs.C04.known_deviations_are", "Zrnt.Proofs.C04.ssz_types_complete",
               "Zrnt.Proofs.C04.no_opaque_bodies", "Zrnt.Proofs.C04.checkType_sound_struct",
-              "Zrnt.Proofs.C04.checkType_sound_list", "Zrnt.Proofs.C04.readBitList_eq_decode"],
+              "Zrnt.Proofs.C04.checkType_sound_list", "Zrnt.Proofs.C04.checkType_sound_vector",
+              "Zrnt.Proofs.C04.checkType_sound_bitfield", "Zrnt.Proofs.C04.checkType_sound_leaf", "Zrnt.Proofs.C04.leaf_meets_lift",
+              "Zrnt.Proofs.C04.soundness_covers_all_rows", "Zrnt.Proofs.C04.readBitList_eq_decode"],
     modes=[dict(name="ssz")],
     level="proof",
     trusted_base=TB_COMMON + TB_SSZ,
@@ -79,7 +83,7 @@ PROPS = {"C04": dict(
                  "legal SSZ types only (no zero-length vectors, no empty containers)"],
     rule="every Go SSZ type x 5 presets x generated values/corruptions; a case is non-trivial when the Go side executed it (not bad-op); distinct = distinct op lines",
     manifest=dict(
-        level_text="generic SSZ theorems in Lean (round trip, lengths, strict decode = canonical bytes) + table theorems over facts regenerated from the Go source + differential run of every Go SSZ type against the Lean decoder at the specification schema",
+        level_text="generic SSZ theorems in Lean (round trip, lengths, strict decode = canonical bytes) + table theorems over facts regenerated from the Go source + differential run of every Go SSZ type against the Lean decoder at the specification schema (bytes, lengths, root, canonical JSON text)",
         level_note="trusted: Lean kernel, SSZ rule and schema transcriptions, extractor; ztyp/json/yaml exercised not verified",
         technique="Lean 4 proof + regenerated fact tables + Go/Lean differential correspondence",
         design_ref="DESIGN.md 5/C04", engine="lean"),
